@@ -22,8 +22,8 @@ Proof.
   revert base. induction m as [| [t d] r IH]; intros base H; cbn [retained_matching] in H.
   - okinv. reflexivity.
   - okinv. unfold matching_retained in *. cbn [filter]. unfold topic_matches_b at 1. cbn [fst].
+    specialize (IH _ eq_refl). subst.
     match goal with E : topic_matches _ _ = Ok ?b |- _ => unfold topic_matches in E; rewrite E end.
-    match goal with E : retained_matching _ _ = Ok _ |- _ => apply IH in E; subst end.
     match goal with |- context [if ?b then _ else _] => destruct b end; reflexivity.
 Qed.
 
@@ -67,7 +67,9 @@ Qed.
 
 Lemma read_retained_state st f st1 rs : read_retained st f = Ok (st1, rs) -> exists orc, st1 = set_r_oracle st orc.
 Proof.
-  unfold read_retained. intros H. okinv; try (exists (r_oracle st); destruct st; reflexivity); eauto.
+  unfold read_retained. intros H. okinv.
+  all: try (eexists; reflexivity).
+  all: match goal with |- exists orc, ?s = set_r_oracle ?s orc => exists (r_oracle s); destruct s; reflexivity end.
 Qed.
 
 (** the replayed candidates are exactly the stored publishes whose topic matches the filter *)
@@ -81,11 +83,11 @@ Proof.
   assert (Hsub : lookup_all m (map fst (matching_retained f m)) = map snd (matching_retained f m)).
   { apply lookup_all_sub; [exact Hnd|]. unfold matching_retained. intros x Hx. now apply filter_In in Hx. }
   okinv.
-  all: match goal with E : retained_matching _ _ = Ok _ |- _ => apply retained_matching_spec in E end.
-  - rewrite E, Hsub. apply Permutation_refl.
-  - rewrite E, Hsub. apply Permutation_refl.
+  all: match goal with E : retained_matching _ _ = Ok _ |- _ => apply retained_matching_spec in E; rewrite <- E in Hsub end.
+  - rewrite <- Hsub. cbn [lookup_all]. apply Permutation_refl.
+  - rewrite <- Hsub. cbn [lookup_all]. apply Permutation_refl.
   - match goal with E : perm_ofS _ _ = true |- _ => apply perm_ofS_perm in E; rename E into Hp end.
-    rewrite E in Hp. rewrite <- Hsub, !lookup_all_flat. now apply Permutation_flat_map.
+    rewrite <- Hsub, !lookup_all_flat. now apply Permutation_flat_map.
 Qed.
 
 (** ... in MQTT terms (C12): a stored publish is a candidate iff its topic does not start
@@ -110,3 +112,659 @@ Proof.
     unfold matching_retained. apply filter_In. split; [exact Hg|]. unfold topic_matches_b. cbn [fst].
     apply (matches_spec t f (Ht _ _ Hg) Hf) in Hm. now rewrite Hm.
 Qed.
+
+(* ------------------------------------------------------------------ what a forward keeps of its source *)
+Definition fsrc : Type := (option cursor * publish * option pprops)%type.
+
+(** the forwarded publish is the source publish with the granted QoS; dup, retain and payload
+    are untouched; the topic is the source's, or empty when a broker topic alias replaces it *)
+Definition same_msg (qos : N) (p p' : publish) : Prop :=
+  p_dup p' = p_dup p /\ p_retain p' = p_retain p /\ p_payload p' = p_payload p /\ p_qos p' = qos /\
+  (p_topic p' = p_topic p \/ p_topic p' = []).
+Definition fwd_of (qos : N) (s : fsrc) (n : notification) : Prop :=
+  exists p' pr', n = NForward (fst (fst s)) p' pr' /\ same_msg qos (snd (fst s)) p'.
+
+Lemma Forall2_compose {X Y Z} (R : X -> Y -> Prop) (S : Y -> Z -> Prop) (T : X -> Z -> Prop) l1 : forall l2 l3,
+  (forall x y z, R x y -> S y z -> T x z) -> Forall2 R l1 l2 -> Forall2 S l2 l3 -> Forall2 T l1 l3.
+Proof.
+  induction l1 as [| x r IH]; intros l2 l3 H H1 H2; inversion H1; subst; inversion H2; subst; constructor; eauto.
+Qed.
+
+Lemma alias_forwards_spec qos subid l : forall bal bal' l',
+  alias_forwards bal qos subid l = (bal', l') ->
+  Forall2 (fun s s' : fsrc => fst (fst s') = fst (fst s) /\ same_msg qos (snd (fst s)) (snd (fst s'))) l l'.
+Proof.
+  induction l as [| [[c p] pr] r IH]; intros bal bal' l' H; cbn [alias_forwards] in H.
+  - injection H as <- <-. constructor.
+  - destruct bal as [b|].
+    + destruct (utf8_valid (p_topic (set_p_qos p qos))).
+      * destruct (al_get str_eqb (p_topic (set_p_qos p qos)) (ba_map b)) as [a|].
+        -- match type of H with (let '(_, _) := alias_forwards ?x _ _ _ in _) = _ =>
+             destruct (alias_forwards x qos subid r) as [bal2 r'] eqn:Er end.
+           injection H as <- <-. constructor; [|eapply IH; eauto].
+           cbn [fst snd]. unfold same_msg. cbn. auto 10.
+        -- destruct (ba_set_new_alias b (p_topic (set_p_qos p qos))) as [b' a].
+           match type of H with (let '(_, _) := alias_forwards ?x _ _ _ in _) = _ =>
+             destruct (alias_forwards x qos subid r) as [bal2 r'] eqn:Er end.
+           injection H as <- <-. constructor; [|eapply IH; eauto].
+           cbn [fst snd]. unfold same_msg. cbn. auto 10.
+      * destruct (alias_forwards (Some b) qos subid r) as [bal2 r'] eqn:Er.
+        injection H as <- <-. constructor; [|eapply IH; eauto].
+        cbn [fst snd]. unfold same_msg. cbn. auto 10.
+    + destruct (alias_forwards None qos subid r) as [bal2 r'] eqn:Er.
+      injection H as <- <-. constructor; [|eapply IH; eauto].
+      cbn [fst snd]. unfold same_msg. cbn. auto 10.
+Qed.
+
+Lemma number_forwards_spec fidx fw : forall o o' ns,
+  number_forwards o fidx fw = (o', ns) ->
+  Forall2 (fun (s : fsrc) n => exists pk, n = NForward (fst (fst s)) (set_p_pkid (snd (fst s)) pk) (snd s)) fw ns /\
+  o_client o' = o_client o /\ o_link o' = o_link o /\ o_pubrels o' = o_pubrels o.
+Proof.
+  induction fw as [| [[c p] pr] r IH]; intros o o' ns H; cbn [number_forwards] in H.
+  - injection H as <- <-. repeat split. constructor.
+  - match type of H with (let '(_, _) := number_forwards ?x _ _ in _) = _ =>
+      destruct (number_forwards x fidx r) as [o2 ns2] eqn:Er end.
+    injection H as <- <-. apply IH in Er as (Hf & H1 & H2 & H3). cbn [o_client o_link o_pubrels] in *.
+    repeat split; auto. constructor; [|exact Hf]. cbn [fst snd]. eauto.
+Qed.
+
+Lemma fwd_of_numbered qos (s s' : fsrc) n :
+  (fst (fst s') = fst (fst s) /\ same_msg qos (snd (fst s)) (snd (fst s'))) ->
+  (exists pk, n = NForward (fst (fst s')) (set_p_pkid (snd (fst s')) pk) (snd s')) ->
+  fwd_of qos s n.
+Proof.
+  intros [Hc Hm] (pk & ->). unfold fwd_of. rewrite Hc. do 2 eexists. split; [reflexivity|].
+  unfold same_msg in *. cbn. exact Hm.
+Qed.
+
+Lemma fwd_of_plain qos (s s' : fsrc) :
+  (fst (fst s') = fst (fst s) /\ same_msg qos (snd (fst s)) (snd (fst s'))) ->
+  fwd_of qos s (let '(c, p, pr) := s' in NForward c p pr).
+Proof.
+  destruct s' as [[c' p'] pr']. cbn [fst snd]. intros [-> Hm]. unfold fwd_of. eauto.
+Qed.
+
+(* ------------------------------------------------------------------ link buffers *)
+Definition out_of (st : rstate) (k : N) : list notification :=
+  match nthN (r_links st) k with Some b => lk_out b | None => [] end.
+
+Lemma push_out_spec st k ns st' len :
+  push_out st k ns = Ok (st', len) ->
+  out_of st' k = out_of st k ++ ns /\ len = lenN (out_of st k ++ ns) /\
+  (forall j, j <> k -> out_of st' j = out_of st j) /\
+  (exists b, nthN (r_links st) k = Some b).
+Proof.
+  unfold push_out, link_get, out_of. intros H. okinv. rsimpl.
+  match goal with E : nthN _ _ = Some _ |- _ => rename E into En end.
+  rewrite (nthN_setN_same _ _ _ _ En). cbn [lk_out set_lk_out]. repeat split; eauto.
+  intros j Hj. rewrite nthN_setN_other by congruence. reflexivity.
+Qed.
+
+(* ------------------------------------------------------------------ entries read come from the log *)
+Lemma In_firstN {X} (l : list X) : forall n x, In x (firstN n l) -> In x l.
+Proof.
+  induction l as [| y r IH]; intros n x H; cbn [firstN] in H; [contradiction|].
+  destruct (n =? 0); [contradiction|]. destruct H as [<- | H]; [now left | right; eauto].
+Qed.
+Lemma In_skipN {X} (l : list X) : forall n x, In x (skipN n l) -> In x l.
+Proof.
+  induction l as [| y r IH]; intros n x H; cbn [skipN] in H; [contradiction|].
+  destruct (n =? 0); [exact H | right; eauto].
+Qed.
+
+Section ReadSubset.
+Context {T : Type}.
+
+Lemma seg_readv_subset (s : segment T) c n sp o :
+  seg_readv s c n = Ok (sp, o) -> forall e, In e o -> In (fst e) (s_data s).
+Proof.
+  unfold seg_readv. intros H e He. okinv; try contradiction.
+  all: apply (in_map fst) in He; rewrite tag_from_map_fst in He; apply In_firstN, In_skipN in He; exact He.
+Qed.
+
+Lemma readv_active_subset start cur len (curr : segment T) pos o :
+  readv_active start cur len curr = Ok (pos, o) -> forall e, In e o -> In (fst e) (s_data curr).
+Proof.
+  unfold readv_active. intros H e He. okinv; try contradiction.
+  all: eapply seg_readv_subset; eauto.
+Qed.
+
+Lemma readv_walk_subset tl start more : forall cur len (curr : segment T) pos o,
+  readv_walk tl start cur len curr more = Ok (pos, o) ->
+  forall e, In e o -> exists s, In s (curr :: more) /\ In (fst e) (s_data s).
+Proof.
+  induction more as [| nxt more IH]; intros cur len curr pos o H e He; cbn [readv_walk] in H.
+  - okinv.
+    all: try solve [eexists; split; [left; reflexivity | eapply seg_readv_subset; solve [eauto]]].
+    all: solve [eexists; split; [left; reflexivity | eapply readv_active_subset; solve [eauto]]].
+  - okinv.
+    all: try solve [eexists; split; [left; reflexivity | eapply seg_readv_subset; solve [eauto]]].
+    all: try solve [eexists; split; [left; reflexivity | eapply readv_active_subset; solve [eauto]]].
+    all: apply in_app_iff in He as [He | He];
+      [ eexists; split; [left; reflexivity | eapply seg_readv_subset; solve [eauto]]
+      | match goal with E : readv_walk _ _ _ _ _ _ = Ok _ |- _ => destruct (IH _ _ _ _ _ E _ He) as (s & Hs & Hd) end;
+        exists s; split; [now right | exact Hd] ].
+Qed.
+
+Lemma readv_subset (l : log T) c n pos out :
+  readv l c n = Ok (pos, out) -> forall e, In e out -> exists s, In s (segs l) /\ In (fst e) (s_data s).
+Proof.
+  unfold readv. intros H e He. okinv; try contradiction.
+  all: match goal with E : nth_rest _ _ = Some _ |- _ => apply nth_rest_split in E as (pre & Hl & _) end.
+  all: match goal with E : readv_walk _ _ _ _ _ _ = Ok _ |- _ => destruct (readv_walk_subset _ _ _ _ _ _ _ _ E _ He) as (s' & Hs & Hd) end.
+  all: exists s'; split; [rewrite Hl; apply in_or_app; now right | exact Hd].
+Qed.
+End ReadSubset.
+
+Lemma readv_unflagged (l : log pubdata) c n pos out :
+  readv l c n = Ok (pos, out) -> unflagged l -> Forall (fun e => p_retain (fst (fst e)) = false) out.
+Proof.
+  intros H Hu. apply Forall_forall. intros e He. destruct (readv_subset _ _ _ _ _ H _ He) as (s & Hs & Hd).
+  unfold unflagged, unflagged_seg in Hu. rewrite Forall_forall in Hu. specialize (Hu _ Hs).
+  rewrite Forall_forall in Hu. exact (Hu _ Hd).
+Qed.
+
+(* ------------------------------------------------------------------ forward_device_data, by cases *)
+Definition srcs (sel : list pubdata) (from_log : list (pubdata * cursor)) : list fsrc :=
+  map (fun x : pubdata => (None, fst x, snd x)) sel ++
+  map (fun x : pubdata * cursor => (Some (snd x), fst (fst x), snd (fst x))) from_log.
+
+Lemma out_of_oracle st orc k : out_of (set_r_oracle st orc) k = out_of st k.
+Proof. reflexivity. Qed.
+
+Lemma set_fwd_false_id rq : dr_fwd_retained rq = false -> set_dr_fwd_retained rq false = rq.
+Proof. destruct rq; cbn. now intros ->. Qed.
+
+(** the forwards built from the publishes and pushed by [push_forwards] *)
+Lemma forwards_spec (o : outgoing) qos fidx bal subid pubs bal' forwards o1 notifs :
+  alias_forwards bal qos subid pubs = (bal', forwards) ->
+  (if qos =? 0
+   then (o, map (fun x : fsrc => let '(c, p, pr) := x in NForward c p pr) forwards)
+   else number_forwards o fidx forwards) = (o1, notifs) ->
+  Forall2 (fwd_of qos) pubs notifs /\ o_link o1 = o_link o /\ o_client o1 = o_client o /\ o_pubrels o1 = o_pubrels o.
+Proof.
+  intros Ha Hn. apply alias_forwards_spec in Ha. destruct (qos =? 0).
+  - injection Hn as <- <-. repeat split. clear -Ha.
+    induction Ha as [| s s' l l' Hs _ IH]; cbn [map]; constructor; [|exact IH].
+    now apply fwd_of_plain.
+  - apply number_forwards_spec in Hn as (Hf & H1 & H2 & H3). repeat split; auto.
+    eapply Forall2_compose; [| exact Ha | exact Hf]. intros x y z. apply fwd_of_numbered.
+Qed.
+
+
+Lemma update_next_client_spec st g st1 g1 :
+  update_next_client st g = Ok (st1, g1) ->
+  (exists orc, st1 = set_r_oracle st orc) /\
+  g_clients g1 = g_clients g /\ g_cursor g1 = g_cursor g /\ g_strategy g1 = g_strategy g /\
+  match g_strategy g with
+  | RoundRobin => g_idx g1 = (g_idx g + 1) mod lenN (g_clients g)
+  | Random => g_idx g1 < lenN (g_clients g)
+  | Sticky => g_idx g1 = g_idx g
+  end.
+Proof.
+  unfold update_next_client. intros H.
+  assert (Hs : exists orc, st = set_r_oracle st orc) by (exists (r_oracle st); destruct st; reflexivity).
+  destruct (g_strategy g) eqn:Es; okinv; cbn [g_clients g_cursor g_strategy g_idx set_g_idx]; repeat split; eauto.
+  lia.
+Qed.
+
+(** the group a request reads through, if it has one that exists *)
+Definition req_group (st : rstate) (rq : drequest) : option (str * group) :=
+  match dr_group rq with
+  | Some name => match al_get str_eqb name (r_groups st) with
+                 | Some g => Some (name, g)
+                 | None => None
+                 end
+  | None => None
+  end.
+
+(** everything [forward_device_data] does, by cases *)
+Lemma forward_cases st id rq st' rq' status o :
+  forward_device_data st id rq = Ok (st', rq', status) ->
+  get_obuf st id = Ok o ->
+  let sg := req_group st rq in
+  let rq0 := match sg with Some (_, g) => set_dr_cursor rq (g_cursor g) | None => rq end in
+  let slots0 := if dr_qos rq =? 0 then cf_max_outgoing (r_cfg st) else MAX_INFLIGHT - lenN (o_inflight o) in
+  let slots := match sg with
+               | Some (_, g) => match g_strategy g with RoundRobin => 1 | _ => slots0 end
+               | None => slots0
+               end in
+  let skip := match sg with
+              | Some (_, g) => negb (ostr_eqb (Some (o_client o)) (current_client g))
+              | None => false
+              end in
+  (status = SInflightFull /\ st' = st /\ rq' = rq0) \/
+  exists sel d pos from_log,
+    (if dr_fwd_retained rq
+     then exists st1 rs, read_retained st (dr_filter rq) = Ok (st1, rs) /\ sel = firstnN slots rs
+     else sel = []) /\
+    native_get (r_datalog st) (dr_idx rq) = Ok d /\
+    readv (d_log d) (dr_cursor rq0) (slots - lenN sel) = Ok (pos, from_log) /\
+    dr_fwd_retained rq' = false /\
+    dr_filter rq' = dr_filter rq /\ dr_idx rq' = dr_idx rq /\ dr_qos rq' = dr_qos rq /\ dr_group rq' = dr_group rq /\
+    if skip then
+      (exists orc, st' = set_r_oracle st orc) /\ dr_cursor rq' = dr_cursor rq0 /\ dr_read rq' = dr_read rq /\
+      status = (if is_done pos then FilterCaughtup else SkipRequest)
+    else
+      dr_cursor rq' = pos_end pos /\ dr_read rq' = dr_read rq + lenN (srcs sel from_log) /\
+      status <> SInflightFull /\ status <> SkipRequest /\
+      exists ns,
+        out_of st' (o_link o) = out_of st (o_link o) ++ ns ++ (match status with BufferFull => [NUnschedule] | _ => [] end) /\
+        (forall k, k <> o_link o -> out_of st' k = out_of st k) /\
+        Forall2 (fwd_of (dr_qos rq)) (srcs sel from_log) ns /\
+        match srcs sel from_log with
+        | [] => status = FilterCaughtup /\ exists orc, st' = set_r_oracle st orc
+        | _ :: _ =>
+            match sg with
+            | Some (name, g) =>
+                exists sta stb g1, update_next_client sta g = Ok (stb, g1) /\
+                  r_groups st' = al_set str_eqb name (set_g_cursor g1 (pos_end pos)) (r_groups st)
+            | None => r_groups st' = r_groups st
+            end
+        end.
+Proof.
+  intros H Ho sg. assert (Esg : sg = req_group st rq) by reflexivity. clearbody sg.
+  intros rq0 slots0 slots skip. unfold forward_device_data in H. rewrite Ho in H. cbn [bind] in H.
+  fold (req_group st rq) in H. rewrite <- Esg in H.
+  destruct (slab_get (r_conns st) id) as [conn|] eqn:Ec; cbn [bind] in H; [|discriminate].
+  cbn beta zeta in H. fold rq0 in H.
+  assert (Hq0 : dr_qos rq0 = dr_qos rq /\ dr_fwd_retained rq0 = dr_fwd_retained rq /\ dr_filter rq0 = dr_filter rq /\
+                dr_idx rq0 = dr_idx rq /\ dr_group rq0 = dr_group rq /\ dr_read rq0 = dr_read rq)
+    by (unfold rq0; destruct sg as [[? ?]|]; cbn; auto 10).
+  destruct Hq0 as (Hq1 & Hq2 & Hq3 & Hq4 & Hq5 & Hq6). rewrite Hq1, Hq2, Hq3 in H.
+  match type of H with bind ?x _ = _ =>
+    assert (Hs0 : forall s0, x = Ok s0 -> s0 = slots0)
+      by (unfold slots0, free_slots; destruct (dr_qos rq =? 0); cbn [negb]; intros s0 E; okinv; reflexivity);
+    destruct x as [s0 | |] eqn:Es0; cbn [bind] in H; try discriminate end.
+  specialize (Hs0 s0 eq_refl). subst s0. clear Es0.
+  destruct (negb (dr_qos rq =? 0) && (slots0 =? 0)) eqn:Efull.
+  { left. okinv. auto. }
+  right.
+  assert (Hsl : match sg with Some (_, g) => match g_strategy g with RoundRobin => 1 | _ => slots0 end | None => slots0 end = slots)
+    by reflexivity.
+  rewrite Hsl in H. clear Hsl.
+  match type of H with bind ?x _ = _ => destruct x as [[[[st1 rq1] sel] slots2] | |] eqn:Est end; cbn [bind] in H; try discriminate.
+  assert (Hst : exists orc, st1 = set_r_oracle st orc /\ rq1 = set_dr_fwd_retained rq0 false /\ slots2 = slots - lenN sel /\
+            (if dr_fwd_retained rq
+             then exists st1 rs, read_retained st (dr_filter rq) = Ok (st1, rs) /\ sel = firstnN slots rs
+             else sel = [])).
+  { clear H. destruct (dr_fwd_retained rq) eqn:Ef.
+    - okinv. match goal with E : read_retained _ _ = Ok _ |- _ => pose proof (read_retained_state _ _ _ _ E) as (orc & ->) end.
+      exists orc. repeat split; eauto.
+    - okinv. exists (r_oracle st1). repeat split.
+      + destruct st1; reflexivity.
+      + rewrite set_fwd_false_id; [reflexivity | congruence].
+      + unfold lenN. cbn [length]. lia. }
+  destruct Hst as (orc & -> & -> & -> & Hsel). clear Est.
+  rsimpl in H. cbn [dr_fwd_retained dr_cursor dr_filter dr_idx dr_qos dr_group dr_read set_dr_fwd_retained] in H.
+  rewrite Hq1, Hq3, Hq4, Hq5, Hq6 in H.
+  destruct (native_get (r_datalog st) (dr_idx rq)) as [d | |] eqn:Ed; cbn [bind] in H; try discriminate.
+  destruct (readv (d_log d) (dr_cursor rq0) (slots - lenN sel)) as [[pos from_log] | |] eqn:Er; cbn [bind] in H; try discriminate.
+  fold (srcs sel from_log) in H.
+  exists sel, d, pos, from_log.
+  assert (Hpos : (let '(start, next, caughtup) := match pos with Next s e => (s, e, false) | Done s e => (s, e, true) end in (next, caughtup))
+                 = (pos_end pos, is_done pos))
+    by (destruct pos; reflexivity).
+  destruct (match pos with Next s e => (s, e, false) | Done s e => (s, e, true) end) as [[start next] caughtup] eqn:Epos.
+  cbn beta iota in Hpos. injection Hpos as -> ->.
+  assert (Hsk : match sg with
+                | Some (_, g) => negb (ostr_eqb (Some (o_client o)) (current_client g))
+                | None => false
+                end = skip) by reflexivity.
+  rewrite Hsk in H. clear Hsk.
+  split; [assumption|]. split; [reflexivity|]. split; [assumption|].
+  destruct skip.
+  { okinv. cbn [dr_fwd_retained dr_cursor dr_filter dr_idx dr_qos dr_group dr_read set_dr_fwd_retained].
+    repeat split; eauto. }
+  destruct (srcs sel from_log) as [| s1 rest] eqn:Esrc.
+  { okinv. cbn [dr_fwd_retained dr_cursor dr_filter dr_idx dr_qos dr_group dr_read].
+    repeat split; auto; try discriminate. exists [].
+    rewrite !out_of_oracle, app_nil_r. repeat split; eauto. }
+  cbn beta iota. rewrite <- Esrc in *.
+  destruct (2 <? dr_qos rq); [discriminate H|].
+  destruct (alias_forwards (c_baliases conn) (dr_qos rq) (al_get str_eqb (dr_filter rq) (c_subids conn)) (srcs sel from_log))
+    as [bal forwards] eqn:Ea.
+  match type of H with (let '(_, _) := ?x in _) = _ => destruct x as [o1 notifs] eqn:En end.
+  destruct (forwards_spec _ _ _ _ _ _ _ _ _ _ Ea En) as (Hf & Hl1 & _ & _).
+  match type of H with bind ?x _ = _ => destruct x as [[st4 len] | |] eqn:Ep end; cbn [bind] in H; try discriminate.
+  pose proof (fr_push_out _ _ _ _ Ep) as Hk4. cbn [fst] in Hk4.
+  assert (Hg4 : r_groups st4 = r_groups st).
+  { clear H. unfold push_out in Ep. okinv. reflexivity. }
+  apply push_out_spec in Ep as (Hp1 & Hp2 & Hp3 & _). rewrite Hl1 in *.
+  change (out_of (put_obuf (put_conn (set_r_oracle st orc) id (set_c_baliases conn bal)) id o1)) with (out_of st) in *.
+  rewrite Hg4 in H.
+  match type of H with bind ?x _ = _ => destruct x as [st5 | |] eqn:E5 end; cbn [bind] in H; try discriminate.
+  assert (H5 : out_of st5 = out_of st4 /\
+               match sg with
+               | Some (name, g) =>
+                   exists sta stb g1, update_next_client sta g = Ok (stb, g1) /\
+                     r_groups st5 = al_set str_eqb name (set_g_cursor g1 (pos_end pos)) (r_groups st)
+               | None => r_groups st5 = r_groups st
+               end).
+  { clear H. destruct sg as [[name g]|]; [|okinv; auto].
+    assert (Hag : al_get str_eqb name (r_groups st) = Some g).
+    { unfold req_group in Esg. destruct (dr_group rq) as [nm|]; [|discriminate].
+      destruct (al_get str_eqb nm (r_groups st)) eqn:Eg; [|discriminate]. now injection Esg as -> ->. }
+    rewrite Hag in E5. okinv.
+    match goal with E : update_next_client _ _ = Ok _ |- _ => pose proof (update_next_client_spec _ _ _ _ E) as ((orc' & ->) & _) end.
+    rsimpl. rewrite Hg4. split; [reflexivity | eauto]. }
+  destruct H5 as [Ho5 Hg5]. clear E5.
+  cbn [dr_fwd_retained dr_cursor dr_filter dr_idx dr_qos dr_group dr_read].
+  destruct (MAX_CHANNEL_CAPACITY - 1 <=? len).
+  - match type of H with bind ?x _ = _ => destruct x as [[st6 len6] | |] eqn:Ep6 end; cbn [bind] in H; try discriminate.
+    assert (Hg6 : r_groups st6 = r_groups st5) by (clear H; unfold push_out in Ep6; okinv; reflexivity).
+    apply push_out_spec in Ep6 as (Hq1' & _ & Hq3' & _). okinv.
+    cbn [dr_fwd_retained dr_cursor dr_filter dr_idx dr_qos dr_group dr_read].
+    do 5 (split; [reflexivity|]). split; [reflexivity|]. split; [reflexivity|].
+    split; [discriminate|]. split; [discriminate|]. exists notifs.
+    rewrite Hq1', Ho5, Hp1, <- app_assoc, Hg6. split; [reflexivity|]. split; [|split; [exact Hf | exact Hg5]].
+    intros k Hk. rewrite Hq3', Ho5, Hp3; auto.
+  - okinv. cbn [dr_fwd_retained dr_cursor dr_filter dr_idx dr_qos dr_group dr_read].
+    do 5 (split; [reflexivity|]). split; [reflexivity|]. split; [reflexivity|].
+    split; [destruct (is_done pos); discriminate|]. split; [destruct (is_done pos); discriminate|]. exists notifs.
+    rewrite Ho5, Hp1. split; [destruct (is_done pos); rewrite app_nil_r; reflexivity|]. split; [|split; [exact Hf | exact Hg5]].
+    intros k Hk. rewrite Hp3; auto.
+Qed.
+
+(* ------------------------------------------------------------------ what is pushed *)
+Lemma In_firstnN {X} (l : list X) : forall n x, In x (firstnN n l) -> In x l.
+Proof.
+  induction l as [| y r IH]; intros n x H; cbn [firstnN] in H; [contradiction|].
+  destruct (n =? 0); [contradiction|]. destruct H as [<- | H]; [now left | right; eauto].
+Qed.
+
+Lemma native_get_unflagged st idx d : native_get (r_datalog st) idx = Ok d -> LU st -> unflagged (d_log d).
+Proof.
+  unfold native_get, slab_get, LU, dl_logs. intros H Hl. rewrite Forall_map in Hl.
+  destruct (nthN (sl_items (dl_native (r_datalog st))) idx) as [[d0|]|] eqn:E; try discriminate.
+  injection H as <-. exact (Forall_nthN _ _ _ _ Hl E).
+Qed.
+
+Definition is_live_fwd (n : notification) : Prop := exists c p pr, n = NForward (Some c) p pr /\ p_retain p = false.
+Definition is_replay_fwd (qos : N) (d : pubdata) (n : notification) : Prop :=
+  exists p' pr', n = NForward None p' pr' /\ same_msg qos (fst d) p'.
+
+Lemma srcs_split qos sel from_log ns :
+  Forall2 (fwd_of qos) (srcs sel from_log) ns ->
+  exists ns1 ns2, ns = ns1 ++ ns2 /\
+    Forall2 (is_replay_fwd qos) sel ns1 /\
+    Forall2 (fun (e : pubdata * cursor) n => exists p' pr', n = NForward (Some (snd e)) p' pr' /\ same_msg qos (fst (fst e)) p') from_log ns2.
+Proof.
+  unfold srcs. intros H. apply Forall2_app_inv_l in H as (ns1 & ns2 & H1 & H2 & ->).
+  exists ns1, ns2. split; [reflexivity|]. split.
+  - clear -H1. remember (map _ sel) as l eqn:El. revert sel El.
+    induction H1 as [| s n l l' Hs _ IH]; intros sel El; destruct sel as [| d sel]; try discriminate; constructor.
+    + injection El as -> ->. exact Hs.
+    + injection El as _ ->. now apply IH.
+  - clear -H2. remember (map _ from_log) as l eqn:El. revert from_log El.
+    induction H2 as [| s n l l' Hs _ IH]; intros fl El; destruct fl as [| d fl]; try discriminate; constructor.
+    + injection El as -> ->. exact Hs.
+    + injection El as _ ->. now apply IH.
+Qed.
+
+(** [c15_live_unflagged] + the shape of everything pushed: on the connection's own link only;
+    first the replayed retained publishes (cursor [None]), then the publishes read from the log
+    (cursor [Some], retain = false), then possibly [NUnschedule] *)
+Lemma forward_pushes st id rq st' rq' status o :
+  forward_device_data st id rq = Ok (st', rq', status) -> get_obuf st id = Ok o -> LU st ->
+  exists sel ns_ret ns_live tail,
+    out_of st' (o_link o) = out_of st (o_link o) ++ ns_ret ++ ns_live ++ tail /\
+    (forall k, k <> o_link o -> out_of st' k = out_of st k) /\
+    (tail = [] \/ tail = [NUnschedule]) /\
+    Forall2 (is_replay_fwd (dr_qos rq)) sel ns_ret /\
+    Forall is_live_fwd ns_live /\
+    (dr_fwd_retained rq = false -> sel = []) /\
+    (forall d, In d sel -> exists st1 rs, read_retained st (dr_filter rq) = Ok (st1, rs) /\ In d rs).
+Proof.
+  intros H Ho Hlu. pose proof (forward_cases _ _ _ _ _ _ _ H Ho) as Hc. cbn zeta in Hc.
+  destruct Hc as [(-> & -> & ->) | (sel & d & pos & from_log & Hsel & Hd & Hr & _ & _ & _ & _ & _ & Hrest)].
+  { exists [], [], [], []. rewrite !app_nil_r. repeat split; auto. intros ? []. }
+  match type of Hrest with if ?b then _ else _ => destruct b end.
+  { destruct Hrest as ((orc & ->) & _). exists [], [], [], []. rewrite !app_nil_r. repeat split; auto. intros ? []. }
+  destruct Hrest as (_ & _ & _ & _ & ns & Hout & Hoth & Hf & _).
+  apply srcs_split in Hf as (ns1 & ns2 & -> & Hf1 & Hf2).
+  exists sel, ns1, ns2, (match status with BufferFull => [NUnschedule] | _ => [] end).
+  rewrite <- app_assoc in Hout. split; [exact Hout|]. split; [exact Hoth|].
+  split; [destruct status; auto|]. split; [exact Hf1|]. split.
+  - pose proof (readv_unflagged _ _ _ _ _ Hr (native_get_unflagged _ _ _ Hd Hlu)) as Hu.
+    clear -Hf2 Hu. induction Hf2 as [| e n l l' (p' & pr' & -> & Hm) _ IH]; constructor.
+    + inversion Hu; subst. exists (snd e), p', pr'. split; [reflexivity|]. destruct Hm as (_ & -> & _). assumption.
+    + inversion Hu; subst. auto.
+  - destruct (dr_fwd_retained rq).
+    + destruct Hsel as (st1 & rs & Hrr & ->). split; [discriminate|].
+      intros d0 Hd0. exists st1, rs. split; [exact Hrr|]. eapply In_firstnN; eauto.
+    + subst sel. split; [reflexivity | intros ? []].
+Qed.
+
+Lemma req_group_none st rq : dr_group rq = None -> req_group st rq = None.
+Proof. unfold req_group. now intros ->. Qed.
+
+Lemma store_ok_values m d : store_ok m -> In d (map snd m) -> p_retain (fst d) = true.
+Proof.
+  intros [_ Hf] Hin. apply in_map_iff in Hin as (e & <- & He). rewrite Forall_forall in Hf. exact (Hf _ He).
+Qed.
+
+(** [c15_replay_flagged]: a non-shared request *)
+Lemma replay_exact st id rq st' rq' status o :
+  forward_device_data st id rq = Ok (st', rq', status) -> get_obuf st id = Ok o ->
+  dr_group rq = None -> LU st -> store_ok (dl_retained (r_datalog st)) ->
+  let slots := if dr_qos rq =? 0 then cf_max_outgoing (r_cfg st) else MAX_INFLIGHT - lenN (o_inflight o) in
+  (status = SInflightFull /\ st' = st /\ rq' = rq) \/
+  (dr_fwd_retained rq' = false /\
+   exists sel ns_ret ns_live tail,
+     (if dr_fwd_retained rq
+      then exists st1 rs, read_retained st (dr_filter rq) = Ok (st1, rs) /\ sel = firstnN slots rs /\
+             Permutation rs (map snd (matching_retained (dr_filter rq) (dl_retained (r_datalog st))))
+      else sel = []) /\
+     out_of st' (o_link o) = out_of st (o_link o) ++ ns_ret ++ ns_live ++ tail /\
+     (forall k, k <> o_link o -> out_of st' k = out_of st k) /\
+     (tail = [] \/ tail = [NUnschedule]) /\
+     Forall2 (fun d n => exists p' pr', n = NForward None p' pr' /\ same_msg (dr_qos rq) (fst d) p' /\ p_retain p' = true) sel ns_ret /\
+     Forall is_live_fwd ns_live).
+Proof.
+  intros H Ho Hg Hlu Hok slots. pose proof (forward_cases _ _ _ _ _ _ _ H Ho) as Hc. cbn zeta in Hc.
+  rewrite (req_group_none _ _ Hg) in Hc.
+  destruct Hc as [(-> & -> & ->) | (sel & d & pos & from_log & Hsel & Hd & Hr & Hfl & _ & _ & _ & _ & Hrest)]; [now left|].
+  right. split; [exact Hfl|].
+  destruct Hrest as (_ & _ & _ & _ & ns & Hout & Hoth & Hf & _).
+  apply srcs_split in Hf as (ns1 & ns2 & -> & Hf1 & Hf2).
+  exists sel, ns1, ns2, (match status with BufferFull => [NUnschedule] | _ => [] end).
+  rewrite <- app_assoc in Hout.
+  assert (Hsel' : (if dr_fwd_retained rq
+      then exists st1 rs, read_retained st (dr_filter rq) = Ok (st1, rs) /\ sel = firstnN slots rs /\
+             Permutation rs (map snd (matching_retained (dr_filter rq) (dl_retained (r_datalog st))))
+      else sel = []) /\ Forall (fun d => p_retain (fst d) = true) sel).
+  { destruct (dr_fwd_retained rq).
+    - destruct Hsel as (st1 & rs & Hrr & ->). pose proof (read_retained_spec _ _ _ _ Hrr (proj1 Hok)) as Hp.
+      split; [eauto 6|]. apply Forall_forall. intros d0 Hd0. apply In_firstnN in Hd0.
+      apply (Permutation_in _ Hp) in Hd0. eapply store_ok_values; eauto.
+      unfold matching_retained in Hd0. apply in_map_iff in Hd0 as (e & <- & He). apply filter_In in He as [He _].
+      now apply in_map.
+    - subst sel. split; [reflexivity | constructor]. }
+  destruct Hsel' as [Hs1 Hs2].
+  split; [exact Hs1|]. split; [exact Hout|]. split; [exact Hoth|]. split; [destruct status; auto|]. split.
+  - clear -Hf1 Hs2. induction Hf1 as [| d0 n l l' (p' & pr' & -> & Hm) _ IH]; constructor.
+    + inversion Hs2; subst. exists p', pr'. split; [reflexivity|]. split; [exact Hm|].
+      destruct Hm as (_ & -> & _). assumption.
+    + inversion Hs2; subst. auto.
+  - pose proof (readv_unflagged _ _ _ _ _ Hr (native_get_unflagged _ _ _ Hd Hlu)) as Hu.
+    clear -Hf2 Hu. induction Hf2 as [| e n l l' (p' & pr' & -> & Hm) _ IH]; constructor.
+    + inversion Hu; subst. exists (snd e), p', pr'. split; [reflexivity|]. destruct Hm as (_ & -> & _). assumption.
+    + inversion Hu; subst. auto.
+Qed.
+
+(* ------------------------------------------------------------------ prepare_filter *)
+Lemma try_ready_reqs dbg t why t' b : try_ready dbg t why = Ok (t', b) -> tr_reqs t' = tr_reqs t /\ tr_id t' = tr_id t.
+Proof. unfold try_ready. intros H. okinv; auto. Qed.
+
+Lemma get_tracker_put st id t t0 : get_tracker st id = Ok t0 -> get_tracker (put_tracker st id t) id = Ok t.
+Proof.
+  unfold get_tracker, put_tracker. rsimpl. intros H. destruct (slab_get (r_trackers st) id) eqn:E; [|discriminate].
+  now rewrite (slab_get_put_same _ _ _ _ E).
+Qed.
+
+Lemma reschedule_reqs st id why st' t :
+  reschedule st id why = Ok st' -> get_tracker st id = Ok t ->
+  exists t', get_tracker st' id = Ok t' /\ tr_reqs t' = tr_reqs t /\ tr_id t' = tr_id t.
+Proof.
+  unfold reschedule. intros H Ht. rewrite Ht in H. cbn [bind] in H. okinv.
+  match goal with E : try_ready _ _ _ = Ok _ |- _ => apply try_ready_reqs in E as [E1 E2] end.
+  eexists. split; [|split; eassumption].
+  match goal with |- context [if ?b then _ else _] => destruct b end; unfold get_tracker in *; rsimpl;
+    destruct (slab_get (r_trackers st) id) eqn:E; try discriminate; now rewrite (slab_get_put_same _ _ _ _ E).
+Qed.
+
+(** [c15_no_replay] / creation of requests: a request is created only for a filter path that is
+    not yet among the connection's subscriptions; it asks for the retained replay iff the
+    subscription is not shared *)
+Lemma prepare_filter_request st id cu fidx path qos grp subid st' conn t :
+  prepare_filter st id cu fidx path qos grp subid = Ok st' ->
+  get_conn st id = Ok conn -> get_tracker st id = Ok t ->
+  if set_mem str_eqb path (c_subs conn)
+  then r_trackers st' = r_trackers st /\ r_datalog st' = r_datalog st /\ r_notif st' = r_notif st /\
+       r_links st' = r_links st /\ r_ready st' = r_ready st
+  else exists t', get_tracker st' id = Ok t' /\
+       tr_reqs t' = tr_reqs t ++ [{| dr_filter := path; dr_idx := fidx; dr_qos := qos; dr_cursor := cu; dr_read := 0;
+                                     dr_fwd_retained := match grp with None => true | Some _ => false end;
+                                     dr_group := grp |}].
+Proof.
+  intros H Hc Ht. unfold prepare_filter in H.
+  change (get_conn (set_r_submap st ?x) id) with (get_conn st id) in H. rewrite Hc in H. cbn [bind] in H.
+  assert (Hsubs : c_subs (match subid with Some s0 => set_c_subids conn (al_set str_eqb path s0 (c_subids conn)) | None => conn end) = c_subs conn)
+    by (destruct subid; reflexivity).
+  rewrite Hsubs in H.
+  destruct (set_mem str_eqb path (c_subs conn)).
+  - okinv. rsimpl. auto.
+  - match type of H with bind (track ?s _ ?r) _ = _ => destruct (track s id r) as [st4 | |] eqn:E4 end; cbn [bind] in H; try discriminate.
+    unfold track in E4.
+    match type of E4 with bind (get_tracker ?s id) _ = _ => change (get_tracker s id) with (get_tracker st id) in E4 end.
+    rewrite Ht in E4. cbn [bind] in E4. injection E4 as <-.
+    match type of H with bind (reschedule ?s _ _) _ = _ => destruct (reschedule s id SNewFilter) as [st5 | |] eqn:E5 end; cbn [bind] in H; try discriminate.
+    eapply reschedule_reqs in E5; [| eapply get_tracker_put; exact Ht].
+    destruct E5 as (t' & Ht' & Hr & _). okinv. exists t'. split; [exact Ht' | exact Hr].
+Qed.
+
+(* ------------------------------------------------------------------ on reachable states *)
+Lemma reachable_forward_pushes cfg st id rq st' rq' status o :
+  reachable cfg st ->
+  forward_device_data st id rq = Ok (st', rq', status) -> get_obuf st id = Ok o ->
+  exists sel ns_ret ns_live tail,
+    out_of st' (o_link o) = out_of st (o_link o) ++ ns_ret ++ ns_live ++ tail /\
+    (forall k, k <> o_link o -> out_of st' k = out_of st k) /\
+    (tail = [] \/ tail = [NUnschedule]) /\
+    Forall2 (is_replay_fwd (dr_qos rq)) sel ns_ret /\
+    Forall is_live_fwd ns_live /\
+    (dr_fwd_retained rq = false -> sel = []) /\
+    (forall d, In d sel -> exists st1 rs, read_retained st (dr_filter rq) = Ok (st1, rs) /\ In d rs).
+Proof. intros Hr H Ho. eapply forward_pushes; eauto. eapply reachable_LU; eauto. Qed.
+
+Lemma reachable_replay_exact cfg st id rq st' rq' status o :
+  reachable cfg st ->
+  forward_device_data st id rq = Ok (st', rq', status) -> get_obuf st id = Ok o ->
+  dr_group rq = None ->
+  let slots := if dr_qos rq =? 0 then cf_max_outgoing (r_cfg st) else MAX_INFLIGHT - lenN (o_inflight o) in
+  (status = SInflightFull /\ st' = st /\ rq' = rq) \/
+  (dr_fwd_retained rq' = false /\
+   exists sel ns_ret ns_live tail,
+     (if dr_fwd_retained rq
+      then exists st1 rs, read_retained st (dr_filter rq) = Ok (st1, rs) /\ sel = firstnN slots rs /\
+             Permutation rs (map snd (matching_retained (dr_filter rq) (dl_retained (r_datalog st))))
+      else sel = []) /\
+     out_of st' (o_link o) = out_of st (o_link o) ++ ns_ret ++ ns_live ++ tail /\
+     (forall k, k <> o_link o -> out_of st' k = out_of st k) /\
+     (tail = [] \/ tail = [NUnschedule]) /\
+     Forall2 (fun d n => exists p' pr', n = NForward None p' pr' /\ same_msg (dr_qos rq) (fst d) p' /\ p_retain p' = true) sel ns_ret /\
+     Forall is_live_fwd ns_live).
+Proof.
+  intros Hr H Ho Hg. eapply replay_exact; eauto.
+  - eapply reachable_LU; eauto.
+  - eapply reachable_store_ok; eauto.
+Qed.
+
+(** a request that does not ask for the replay (every shared one, every one that was served
+    once) gets no retained publish: all forwards pushed carry a log cursor *)
+Lemma no_replay_without_flag st id rq st' rq' status o :
+  forward_device_data st id rq = Ok (st', rq', status) -> get_obuf st id = Ok o -> LU st ->
+  dr_fwd_retained rq = false ->
+  dr_fwd_retained rq' = false /\
+  exists ns_live tail,
+    out_of st' (o_link o) = out_of st (o_link o) ++ ns_live ++ tail /\
+    (tail = [] \/ tail = [NUnschedule]) /\ Forall is_live_fwd ns_live.
+Proof.
+  intros H Ho Hlu Hf. split.
+  - pose proof (forward_cases _ _ _ _ _ _ _ H Ho) as Hc. cbn zeta in Hc.
+    destruct Hc as [(_ & _ & ->) | (sel & d & pos & from_log & _ & _ & _ & Hfl & _)]; [|exact Hfl].
+    destruct (req_group st rq) as [[? ?]|]; [exact Hf | exact Hf].
+  - destruct (forward_pushes _ _ _ _ _ _ _ H Ho Hlu) as (sel & ns_ret & ns_live & tail & Hout & _ & Ht & Hf1 & Hf2 & Hs & _).
+    rewrite (Hs Hf) in Hf1. inversion Hf1; subst. exists ns_live, tail. auto.
+Qed.
+
+(* ------------------------------------------------------------------ Example *)
+Module C15Example.
+Definition cfg0 : config :=
+  {| cf_max_connections := 10; cf_max_outgoing := 200; cf_seg_size := 1024; cf_seg_count := 2;
+     cf_init_filters := []; cf_strategy := RoundRobin; cf_debug_assertions := true |}.
+Definition creq (c : str) (clean : bool) (w : option will) : connect_req :=
+  {| cr_client := c; cr_clean := clean; cr_dynamic := false; cr_alias_max := 0; cr_will := w |}.
+Definition mkpub (t pl : str) (qos pkid : N) (retain : bool) : publish :=
+  {| p_dup := false; p_qos := qos; p_retain := retain; p_topic := t; p_pkid := pkid; p_payload := pl |}.
+Definition no (o : rop) : op_in := ([], o).
+(** "p" publishes a retained "x" on a/b; "s" then subscribes to a/+ ; later a live "y" on a/b *)
+Definition ops : list op_in := map no
+  [ OpConnect (creq [112] true None);
+    OpPush 0 (PPublish (mkpub [97;47;98] [120] 0 0 true) None);
+    OpData 0;
+    OpConnect (creq [115] true None);
+    OpPush 1 (PSubscribe 1 [([97;47;43], 0)] None);
+    OpData 1;
+    OpConsume;                      (* connection 0: flushes its ConnAck *)
+    OpConsume;                      (* connection 1: acks + the replay *)
+    OpConsume; OpConsume;
+    OpPush 0 (PPublish (mkpub [97;47;98] [121] 0 0 false) None);
+    OpData 0;
+    OpConsume; OpConsume; OpConsume;
+    OpDrain 1 ].
+
+Definition outs_of (x : R (rstate * list rout)) : option (list rout) :=
+  match x with Ok (_, o) => Some o | _ => None end.
+
+(** what the new wildcard subscriber receives: ConnAck, SubAck, the retained publish flagged
+    retain = true without a cursor, then the live publish with retain = false and its log cursor *)
+Example replay_then_live :
+  option_map (fun o => last o OutUnit) (outs_of (run_from cfg0 ops)) =
+  Some (OutDrain [NAck (AConnAck 1 false); NAck (ASubAck 1 [0]);
+                  NForward None (mkpub [97;47;98] [120] 0 0 true) None;
+                  NForward (Some (0, 0)) (mkpub [97;47;98] [121] 0 0 false) None]).
+Proof. vm_compute. reflexivity. Qed.
+
+(** the hypotheses of [replay_exact] hold in the reachable state before the second consume:
+    a non-shared request with the replay flag set; the call replays once and clears the flag *)
+Example replay_hypotheses :
+  match run_from cfg0 (firstn 7 ops) with
+  | Ok (st, _) =>
+      match slab_get (r_trackers st) 1, slab_get (r_obufs st) 1 with
+      | Some t, Some o =>
+          match tr_reqs t with
+          | rq :: _ =>
+              dr_fwd_retained rq = true /\ dr_group rq = None /\
+              al_get str_eqb [97;47;98] (dl_retained (r_datalog st)) = Some (mkpub [97;47;98] [120] 0 0 true, None) /\
+              match forward_device_data st 1 rq with
+              | Ok (st', rq', status) =>
+                  out_of st' (o_link o) = out_of st (o_link o) ++ [NForward None (mkpub [97;47;98] [120] 0 0 true) None] /\
+                  dr_fwd_retained rq' = false /\ status = FilterCaughtup
+              | _ => False
+              end
+          | [] => False
+          end
+      | _, _ => False
+      end
+  | _ => False
+  end.
+Proof. vm_compute. repeat split; reflexivity. Qed.
+
+(** the ghost history and the store agree on the example ([retained_latest]) *)
+Example latest_example :
+  latest [97;47;98] (history_from cfg0 ops) = Some (mkpub [97;47;98] [120] 0 0 true, None).
+Proof. vm_compute. reflexivity. Qed.
+End C15Example.
